@@ -209,6 +209,7 @@ def _execute(case, seed):
         if dup[1][0] == "v2" and dup[0] not in intact:
             intact.append(dup[0])
     g = grid.Grid(N + (1 if dup is not None else 0), nclients=2, client_kw=dict(k=K, n=N, happy=1))
+    g.sched.batch = bool(case.get("batch"))     # turn granularity, see grid.Sched.batch
     ms.bound_pending(g)
     try:
         si = prep["si"]
@@ -497,6 +498,8 @@ def run(tier, seed):
             cases += subst_cases(fkey, caps, warm_too=True)
             cases += [dict(c, cpu="async") for c in subst_cases(fkey, ["ro"], warm_too=False) + field_cases(fkey, seed, ["ro"], [0, 1, 2], ["intact", "needed"], warm_too=False)]
             cases += dup_cases(fkey, seed, caps) + [dict(c, cpu="async") for c in dup_cases(fkey, seed, ["ro"])]
+    # several answers per reactor turn (grid.Sched.batch): the substitution, field and duplicate cases again
+    cases += [dict(c, batch=True) for c in cases if c.get("cls") in ("subst", "field", "dup") or "dup" in c][:: (2 if tier == "quick" else 1)]
     # a flip in "needed" mode with other == victim is meaningless
     cases = [c for c in cases if sum(1 for s in c["slots"].values() if s[0] != "missing") >= 1]
     for fkey in sorted(set(c["fkey"] for c in cases)):
